@@ -21,6 +21,9 @@ import (
 // their own checks: C14-C16).
 type nullConsensus struct{}
 
+// NullConsensus is embedded by harness consensus wrappers that replace single methods.
+type NullConsensus = nullConsensus
+
 func (nullConsensus) CompeteMaster(height int64) (bool, bool, error) { return true, false, nil }
 func (nullConsensus) CheckMinerMatch(ctx xctx.XContext, block cctx.BlockInterface) (bool, error) {
 	return true, nil
@@ -63,6 +66,9 @@ func (n *Node) chainCtx(proposer *Key) *common.ChainCtx {
 		Crypto:    Crypto(),
 		Acl:       n.Acl,
 		Address:   &xaddress.Address{Address: proposer.Address, PrivateKey: proposer.Priv, PublicKey: &proposer.Priv.PublicKey},
+	}
+	if n.Consensus != nil {
+		c.Consensus = n.Consensus
 	}
 	c.XLog = n.Log
 	c.Timer = timer.NewXTimer()
